@@ -135,7 +135,8 @@ func runGen(repo, outDir string) error {
 	}
 	sb.WriteString("].\n")
 	must(os.WriteFile(filepath.Join(outDir, "ScopeOrder.v"), []byte(sb.String()), 0o644))
-	return nil
+	// Wrappers.v: the seven server wrapper templates as terms of Model/Tmpl.v
+	return writeWrappersV(repo, outDir)
 }
 
 // scanScopeOrder reads, from the body of the wrapper method of each template, where the scopes are published relative to
